@@ -3,6 +3,28 @@ from props import evolve
 from vlib import csimage, evidence, runner
 
 
+def regeneration(chk, tier):
+    from vlib import leafrt, xh
+
+    ls = []
+    for use in range(3):
+        ls.append(xh.Lemma("regen_%d" % use, [(n, "int") for n in ("custom_a", "custom_b", "dreq_b", "stale")], ["return V.regen_ok(%d, custom_a, custom_b, %d, 0, dreq_b, stale)" % (use % 2, use)], pre=["0 <= custom_a < 3", "0 <= custom_b < 3", "0 <= dreq_b < 3", "0 <= stale < 2"], meta={"site": "dotnet sources after re-generation into the same directory for a changed metamodel (enumeration openness, request direction, stale class file)", "expr": "V.regen_ok(%d, custom_a, custom_b, %d, 0, dreq_b, stale)" % (use % 2, use)}))
+    results, stats = xh.run(ls, ["from props import c08rt as V"], timeout=600 if tier == "thorough" else 240, label="c08r", unblock=True)
+    chk.ev.add_counts(xh.summarize(results))
+    chk.ev.coverage["solver_seconds"] += stats["cpu_s"]
+    for l in ls:
+        r = results[l.id]
+        if r.verdict == "inconclusive":
+            chk.inconc("%s: %s" % (l.meta["site"], r.message[:160]))
+        elif r.verdict == "refuted":
+            code = "from props import c08rt as V\ndef replay():\n    a = %r\n    ok = bool(eval(%r, dict(globals(), **a)))\n    return (ok, %r)\n" % (r.args, l.meta["expr"], l.meta["site"])
+            ok, detail = leafrt.run_code(code)
+            if not ok:
+                chk.violation("%s fails for %r" % (l.meta["site"], r.args), {"kind": "python", "code": code, "site": "C08 " + l.id, "args": r.args})
+            else:
+                chk.harness_error("counterexample for %s did not reproduce" % l.id)
+
+
 def check(tier):
     from generator.plugins.dotnet import dotnet_classes as dn, dotnet_enums, dotnet_helpers as dh
 
@@ -10,6 +32,7 @@ def check(tier):
     for label, doc in evolve.full_evolutions():
         evolve.relations_check(chk, "C08", "dotnet", doc, label)
     evolve.run_tiny(chk, ["dotnet"], tier, "C08")
+    regeneration(chk, tier)
     chk.ev.coverage["functions_encoded"] = [evidence.fn_ref(f) for f in (dn.generate_property, dn.get_type_name, dn.lsp_to_base_types, dn.generate_constructor, dn.get_all_properties, dn.get_all_extends, dn.generate_class_from_struct, dn.get_message_template, dn.get_response_template, dn.generate_all_classes, dn.generate_literal_type, dotnet_enums.generate_enum, dh.generate_extras, dh.get_name, dh.class_wrapper)]
     chk.ev.coverage["bounds"] = {"tiny metamodels": "as for C07 (type shapes 10 x 7 x 3 x optional tri-state, 7 names, 3^6 inheritance graphs, all mark subsets, enumerations, anonymous literals, messages with/without typeName x directions x params x result kinds)", "full metamodels": "committed model + 2 evolutions (all ~630 emitted classes each)"}
     chk.ev.coverage["outside_bounds"] = ["C# compilation and Newtonsoft.Json run-time behaviour (no .NET toolchain here)", "the hand-written custom/*.cs helpers", "types of members whose C# type is an invented helper class (map with union value, unions of literals)"]
